@@ -60,8 +60,8 @@ Theorem entry_restores_refuted_builders :
 Proof. vm_compute. repeat split; reflexivity. Qed.
 
 (* value_to_string runs on a spawned vm: nothing of this instance changes *)
-Theorem value_to_string_clean : forall v, host HDisplay v = (HOk, v).
-Proof. reflexivity. Qed.
+Theorem value_to_string_clean : forall v, host HDisplay v = (HOk, v) /\ host HDisplayFails v = (HErr EThrown, v).
+Proof. split; reflexivity. Qed.
 
 Theorem compile_error_clean : forall v, host HCompileError v = (HErr EThrown, v).
 Proof. reflexivity. Qed.
@@ -73,6 +73,24 @@ Print Assumptions early_exit_restored.
 Print Assumptions entry_restores_refuted_builders.
 Print Assumptions value_to_string_clean.
 Print Assumptions compile_error_clean.
+
+(* run_import: a module that fails at run time (at top level, in its @main, or in a nested import) leaves no
+   placeholder and the importer's exports map is back: the module RUNS AGAIN when it is imported again (the model's
+   Import answers "recursive import" only while the placeholder exists).  Correspondence-only shapes (re-entrant). *)
+Example failed_import_leaves_no_placeholder :
+  map (fun r => (fst r, placeholders (snd r), exports (snd r), sizes (snd r)))
+      (history [HRun 5 (Import 4 5 Fail); HRun 5 (Import 4 5 Fail);
+                HRun 5 (ImportMain 7 5 Nop 5 Fail); HRun 5 (Import 9 5 (Import 4 5 Fail));
+                HRun 5 (Try (Import 4 5 Fail) Nop)] fresh)
+  = [(HErr EThrown, [], 0, (0, 0, 0, 0, 0)); (HErr EThrown, [], 0, (0, 0, 0, 0, 0));
+     (HErr EThrown, [], 0, (0, 0, 0, 0, 0)); (HErr EThrown, [], 0, (0, 0, 0, 0, 0));
+     (HOk, [], 0, (0, 0, 0, 0, 0))].
+Proof. vm_compute. reflexivity. Qed.
+
+(* a recursive import is an error while the placeholder exists *)
+Example recursive_import_is_an_error :
+  fst (host (HRun 5 (Import 1 5 (Import 1 5 Nop))) fresh) = HErr EThrown.
+Proof. vm_compute. reflexivity. Qed.
 
 (* ---- non-vacuity: the class contains failing operations of every kind, at depth -------------- *)
 Example class_nonempty :
